@@ -464,7 +464,12 @@ def r4_selectors(ctx):
             want = "{let_plural_rules=l_i18n_crate::__private::get_plural_rules(*LOCALE,%s);match_plural_rules.category_for(core::clone::Clone::clone(<ck>)){%sZero=>{S<vz>},%sOne=>{S<vo>},%sFew=>{S<vf>},_=>S<vother>,}}" % (RT, P, P, P)
         else:
             want = "{let_plural_rules=l_i18n_crate::__private::get_plural_rules(LOCALE,%s);move||{match_plural_rules.category_for(<ck>()){%sZero=>{W0/4[V<vz>]},%sOne=>{W1/4[V<vo>]},%sFew=>{W2/4[V<vf>]},_=>W3/4[V<vother>],}}}" % (RT, P, P, P)
-        if txt == want:
+        # (clones of the captured variables in front of the closure - `let x = Clone::clone(&x);` - are not part of the selection)
+        txt_cmp = re.sub(r"^\{(?:let(<\w+>|\w+)=core::clone::Clone::clone\(&\1\);)+", "{", txt) if txt else txt
+        if name == "to_token_stream" and txt and "move||" in txt and "let<ck>=core::clone::Clone::clone(&<ck>);" not in txt.split("move||")[0]:
+            r.viol("R4:plurals::to_token_stream#count-moved", "the generated view closure is `move ||` and calls the count inside, but the count is not cloned before it: a second plural / range or a `{{ count }}` next to "
+                   "this one (`$t(apples) and $t(pears)`) then uses a moved value and the translations do not compile", file=fn.file, line=fn.line)
+        if txt_cmp == want:
             r.inst("macro plurals::" + name, "match category_for(count) { <category of each written form> => that form's value, _ => other } with get_plural_rules(locale field, this plural's rule type)")
             r.inst("macro plurals::%s#arm" % name, "one arm per written form, in order, each with the ICU category of the same name")
         else:
